@@ -72,6 +72,8 @@ class Probe:
         self.tls.frames = []
         self.tls.next_plan = None
         self.tls.last = None
+        self.tls.done = None
+        self.tls.deferred = False
         self.idents[threading.get_ident()] = tid
 
     def tid(self):
@@ -157,7 +159,10 @@ class Probe:
         with self.evlock:
             self.returned.add((fr.cid, fr.eid, fr.oid, tuple(fac), renv))
         self.tls.last = dict(cid=fr.cid, eid=fr.eid, oid=fr.oid, fac=tuple(fac), renv=renv, g=g, module=module)
-        self.park()
+        done = getattr(self.tls, 'done', None)
+        if done is not None:
+            done.append(self.tls.last)
+        self.tls.deferred = True
 
     def fail(self, fr, exc):
         self.sync(('Raise',))
@@ -167,7 +172,14 @@ class Probe:
             with self.evlock:
                 self.errors.append((self.tid(), fr.cid, fr.eid, fr.oid, exc))
         self.tls.last = None
-        self.park()
+        self.tls.deferred = True
+
+    def park_deferred(self):
+        """The park of Return / Raise is taken by the caller of transform(), after the frames of the request
+        (which reference the function object) are gone: the specification may collect the code object now."""
+        if getattr(self.tls, 'deferred', False):
+            self.tls.deferred = False
+            self.park()
 
     def mark_transform_ok(self, fr):
         k = (fr.cid, fr.oid)
@@ -369,6 +381,7 @@ def traced_transpiler(probe):
                             raise
                     finally:
                         del nfn
+                    p.park_deferred()
                     continue
                 if act == 'TransformFail':
                     p.ev('transform_fail', key=fr.cid, sub=fr.oid)
